@@ -59,6 +59,7 @@ def gen_config(H):
         "minimize": bool(H.draw(2)),
         "time_budget": bool(H.draw(4) == 3),
         "composite_budget": bool(H.draw(2)),
+        "inject": bool(H.draw(2)),
         "default_random": bool(H.draw(4) == 3),  # the search is built without `random=` (documented default)
         "fitness_levels": H.pick([1000, 1000, 7, 3]),  # coarse fitness: ties at the elite cut
         "elitist_step": bool(H.draw(2)),  # GP step that really reserves elite slots (the default 5% rounds to 0 for small populations)
@@ -85,12 +86,16 @@ def run_search(spec, cfg, built=None, grammar=None, clock=None, shared=None):
     ref = Ref(spec, b)
     g = grammar or b.extract()
     trace = []
+    # (a problem object may serve two searches -- history, `shared` -- so its fitness function writes to the CURRENT run's trace)
+    box = shared.setdefault("trace_box", [None]) if shared is not None else [None]
+    box[0] = trace
+    levels = cfg.get("fitness_levels", 1000)
 
     def ff(p):
         c = canon(p, ref)
         h = int.from_bytes(hashlib.sha256(repr(c).encode()).digest()[:4], "big")
-        trace.append(show(c, 160))
-        return float(h % cfg.get("fitness_levels", 1000))
+        box[0].append(show(c, 160))
+        return float(h % levels)
 
     r = NativeRandomSource(cfg["seed"])
     lm = g.get_min_tree_depth()
@@ -115,7 +120,11 @@ def run_search(spec, cfg, built=None, grammar=None, clock=None, shared=None):
         rep = StackBasedGGGPRepresentation(g, gene_length=max(64, cfg["gene_length"]), failures_limit=50)
     if shared is not None and k != "tree":
         shared["rep"] = rep
-    problem = SingleObjectiveProblem(ff, minimize=cfg["minimize"])
+    problem = shared.get("problem") if (shared is not None and grammar is not None) else None
+    if problem is None:
+        problem = SingleObjectiveProblem(ff, minimize=cfg["minimize"])
+        if shared is not None:
+            shared["problem"] = problem
 
     class Checks(SearchBudget):
         def __init__(self):
@@ -153,6 +162,24 @@ def run_search(spec, cfg, built=None, grammar=None, clock=None, shared=None):
                                        SequenceStep(TournamentSelection(3), GenericCrossoverStep(0.5), GenericMutationStep(0.5))], weights=[3, 1, 6])
     if cfg["algo"] == "hc":
         kw["number_of_mutations"] = cfg["hc_n"]
+    if cfg.get("inject") and k == "tree" and cfg["algo"] == "gp":
+        # the caller's own list of hand-made programs is injected into the initial population; the same list object serves the
+        # second search (history, `shared`)
+        from geneticengine.algorithms.gp.operators.initializers import StandardInitializer
+        from geneticengine.representations.tree.operators import InjectInitialPopulationWrapper
+
+        programs = shared.get("programs") if (shared is not None and grammar is not None) else None
+        if programs is None:
+            try:
+                r2 = NativeRandomSource(cfg["seed"] + 7)
+                rep2 = TreeBasedRepresentation(g, I.MaxDepthDecider(r2, g, depth))
+                programs = [rep2.create_genotype(r2) for _ in range(1 + cfg["pop"] // 2)]
+            except Exception:
+                programs = []
+            if shared is not None:
+                shared["programs"] = programs
+        if programs:
+            kw["population_initializer"] = InjectInitialPopulationWrapper(programs, StandardInitializer())
     outcome = "ok"
     best = None
     try:
